@@ -348,6 +348,46 @@ def traffic_log_round_trip(ctx, repo, rule):
     ctx.floor(rule, "traffic logs interpreted", n, 5)
 
 
+def firmware_strings(ctx, repo, rule):
+    """the version lines of a snapshot are written from the connection's intouch_version_en / _co strings: on both stacks
+    the version step of the handshake is interpreted with a reply whose six numbers are pairwise distinct - the strings
+    must be '<EN build> v<EN major>.<EN minor>' and '<CO build> v<CO major>.<CO minor>' (what GeckoSnapshot reads back as
+    the firmware tuples)"""
+    from ..absint import Interp, Native, Obj, Opaque, PyRaise, Undecided
+    from ..facts import ConnectionModel
+    from .c16 import build_instance
+    reply = {"en_build": 70, "en_major": 14, "en_minor": 1, "co_build": 69, "co_major": 11, "co_minor": 2}
+    want = ("70 v14.1", "69 v11.2")
+    # blocking stack: GeckoSpa._on_version_received(handler, sender)
+    it = Interp(repo, max_depth=12)
+    spa = build_instance(repo, it, "GeckoSpa")
+    for nm in ("queue_send", "add_receive_handler"):
+        spa.attrs[nm] = Native(lambda a, k: None, nm)
+    fi = repo.method("GeckoSpa", "_on_version_received")
+    n_extra = len(fi.node.args.args) - 2
+    try:
+        it.call(fi, spa, [Obj(None, dict(reply), name="version-reply")] + [("10.0.0.5", 10022, b"S", b"C")] * max(n_extra, 0))
+    except PyRaise:
+        pass      # what follows (the next request of the handshake) is not this rule's subject
+    except Undecided as e:
+        if "intouch_version_co" not in spa.attrs:
+            raise AnalysisError(f"GeckoSpa._on_version_received on the model connection: {e}")
+    got = (spa.attrs.get("intouch_version_en"), spa.attrs.get("intouch_version_co"))
+    ctx.ob(rule, "blocking::firmware-strings-from-the-version-reply", got == want,
+           f"GeckoSpa._on_version_received with a reply EN 70 v14.1 / CO 69 v11.2 stores {got}, expected {want}: the snapshot's firmware lines are written from these strings", fi.loc,
+           sample={"rule": rule, "stack": "blocking", "strings": [str(g) for g in got]})
+    # awaitable stack: the version step of _connect on the connection model
+
+    def answer(req):
+        if isinstance(req, Obj) and req.cls is not None and req.cls.short == "GeckoVersionProtocolHandler":
+            return Obj(None, dict(reply), name="version-reply")
+        return None
+    cm = ConnectionModel(repo, answer=answer)
+    got = (cm.spa.attrs.get("intouch_version_en"), cm.spa.attrs.get("intouch_version_co"))
+    ctx.ob(rule, "awaitable::firmware-strings-from-the-version-reply", got == want,
+           f"GeckoAsyncSpa._connect with a version reply EN 70 v14.1 / CO 69 v11.2 stores {got}, expected {want}", repo.method("GeckoAsyncSpa", "_connect").loc)
+
+
 def reader_table(repo):
     """[(pattern text, handler method name)] of the snapshot reader, in table order, however the table is kept: a list
     of (pattern, bound method) pairs built in __init__, or a class-level tuple of records holding a compiled pattern and
@@ -419,6 +459,8 @@ def check(ctx):
     ctx.rule("R9", "... through the packet layer unchanged: a frame built by send_bytes and handed to handle() gives back exactly the payload, for any payload bytes (C04's end-to-end frame round trip on symbolic payloads borrowed; strip-like calls on a payload are adversarial)")
     from .c04 import framing as _framing
     _framing(ctx.borrowed("R9", "C04", only=("R4",), key_contains="frame-round-trip"), repo)
+    ctx.rule("R10", "the firmware a snapshot records is the connection's: on both stacks the version step of the handshake, interpreted with a reply of six pairwise distinct numbers, stores '<EN build> v<major>.<minor>' and '<CO build> v<major>.<minor>' - the strings the shell writes and the reader parses back")
+    firmware_strings(ctx, repo, "R10")
     ctx.rule("R8", "writer and reader composed by interpretation: three snapshots (all byte values / zeros with extreme versions / bytes that look like list punctuation, with a hyphenated pack name) written by GeckoShell.do_snapshot on a model facade and read back line by line through GeckoSnapshot.parse, in both log formats: bytes, pack type, firmware EN/CO, config and log versions and the name come back exactly")
     snapshot_round_trip(ctx, repo, "R8")
     snap_init = repo.method("GeckoSnapshot", "__init__")
